@@ -1586,6 +1586,9 @@ def value_kind_facts(r):
 
 
 def _abs_evaluate(it, v, a, k):
+    o = it.deref(v) if S.is_term(v) else v
+    if isinstance(o, SymObj) and "abs_id" in o.fields:
+        v = o.fields["abs_id"]  # behavioural identity: survives copy.copy()
     r = expr_evaluate(v, context_term(it, a[0]))
     it.assume(value_kind_facts(r))
     it.assumed.append("contract:FilterExpression.evaluate(abstract: a function of the expression and the context)")
@@ -1731,12 +1734,12 @@ def _deepcopy(it, a, k):
 def _copy_copy(it, a, k):
     v = a[0]
     if isinstance(v, SymObj):
-        n = it.alloc(v.cls, dict(v.fields), origin="FRESH")
+        n = it.alloc(v.cls, dict(v.fields), origin="FRESH", abstract=v.abstract)
         return n
     t = T(it, v)
     o = it.deref(t)
     if isinstance(o, SymObj):
-        return it.alloc(o.cls, dict(o.fields), origin="FRESH")
+        return it.alloc(o.cls, dict(o.fields), origin="FRESH", abstract=o.abstract)
     return t
 
 
